@@ -304,10 +304,35 @@ func (w *World) deliverable(s *sched, f *Flight, step int) bool {
 // randomStep performs one scheduler step and returns a short tag of what it did.
 func (w *World) randomStep(s *sched, adv *Adversary, step int) string {
 	r := w.Rng
+	if w.SplitHandoff {
+		// a node whose main loop already handled a sync / trigger that its worker has not taken yet: messages that
+		// were queued for the worker before are handled first (the window in which a round start meets cancelled contexts)
+		for _, id := range w.Order {
+			n := w.Nodes[id]
+			if n.handSync != nil && r.Intn(2) == 0 {
+				// the worker holds a dequeued sync: the main loop handles a newer one first
+				if c := w.newestCanon(); c != nil {
+					w.SyncNode(n, c.Block, c.Proof)
+					return "sn" + id
+				}
+			}
+			if (n.pendSync != nil || n.pendTrig != nil) && r.Intn(2) == 0 {
+				for i, f := range w.Pool {
+					if f.To == id && (f.Msg == nil || f.Msg.H <= w.Cfg.MaxH) {
+						w.TakeFlight(i)
+						w.Deliver(f)
+						w.Mon.Stats["delivered"]++
+						w.Mon.Stats["delivered inside a hand-off window"]++
+						return "mw" + id
+					}
+				}
+			}
+		}
+	}
 	if w.SplitHandoff && r.Intn(4) == 0 {
 		n := w.Nodes[w.Order[r.Intn(len(w.Order))]]
-		if n.pendSync != nil || n.pendTrig != nil {
-			if n.pendSync != nil && (n.pendTrig == nil || r.Intn(2) == 0) {
+		if n.pendSync != nil || n.pendTrig != nil || n.handSync != nil {
+			if (n.pendSync != nil || n.handSync != nil) && (n.pendTrig == nil || r.Intn(2) == 0) {
 				w.WorkerTakeSync(n)
 				return "ws" + n.Id
 			}
@@ -410,3 +435,14 @@ func (w *World) ByzWeightOK() bool {
 }
 
 var _ = big.NewInt
+
+
+func (w *World) newestCanon() *CommitRec {
+	var best *CommitRec
+	for _, c := range w.Canon {
+		if best == nil || c.Block.H > best.Block.H {
+			best = c
+		}
+	}
+	return best
+}
